@@ -1,4 +1,5 @@
 """C08 - state replies are decoded into exactly what the device reported (DESIGN.md 4/C08)"""
+from .common import frame_ok as _frame_ok
 import z3
 
 from pyvc.engine import Unit, Obligation, outcome_of, concretise
@@ -33,7 +34,7 @@ def units(tier):
             ctx._code_outcome = ob
             os_ = outcome_of(lambda: ip.call_function(func("spec." + ref), [r] + wfextra() + extra(), {}, ctx))
             return field_obligations(ip, ctx, f"{PROP}/{clsname}", ob, os_) + [
-                Obligation(f"{PROP}/{clsname}/parsing_assigns_nothing", ctx, not ctx.ghost.heap_writes and not ctx.ghost.module_writes,
+                Obligation(f"{PROP}/{clsname}/parsing_assigns_nothing", ctx, _frame_ok(ctx)[0],
                            note=str(ctx.ghost.module_writes[:2]))]
 
         def wit(ctx, model):
